@@ -333,8 +333,13 @@ class Exec:
         return n - 1
 
     # -- obligations ---------------------------------------------------------
-    def prove(self, name, props, goal, info=None):
-        """generate and discharge one obligation; afterwards the goal is assumed"""
+    def prove(self, name, props, goal, info=None, soft=False):
+        """generate and discharge one obligation; afterwards the goal is assumed.
+        soft: the obligation exists because of the way the code is written (a write, a loop); it is discharged
+        like any other but is not part of the lock file"""
+        if soft:
+            info = dict(info or {})
+            info['soft'] = True
         if isinstance(props, str):
             props = [props]
         props = set(props)
@@ -441,6 +446,17 @@ class Exec:
     def is_fresh(self, ref):
         """allocated during this activation (by it or by its callees)"""
         return ref >= self.entry_next
+
+    def same(self, a, b):
+        """are the two terms equal on this path (syntactically, or provably under the path condition)"""
+        if not isinstance(a, z3.ExprRef) or not isinstance(b, z3.ExprRef):
+            return a is b
+        if a.sort() != b.sort():
+            return False
+        a, b = L.simp(a), L.simp(b)
+        if a.eq(b):
+            return True
+        return self.check_sat(a != b) == z3.unsat
 
     def small_int_axioms(self, i):
         """instances of: every int has >= 1 digit, |i| <= 9 has exactly one"""
@@ -729,6 +745,13 @@ class Exec:
         raise ReturnEx(v)
 
     def st_Assign(self, st, env):
+        if len(st.targets) == 1 and isinstance(st.targets[0], (ast.Tuple, ast.List)) \
+                and isinstance(st.value, (ast.Tuple, ast.List)) and len(st.value.elts) == len(st.targets[0].elts) \
+                and not any(isinstance(e, ast.Starred) for e in list(st.value.elts) + list(st.targets[0].elts)):
+            vals = [self.eval(e, env) for e in st.value.elts]      # right-hand side first, left to right
+            for t, v in zip(st.targets[0].elts, vals):
+                self.assign(t, v, env)
+            return
         v = self.eval(st.value, env)
         for t in st.targets:
             self.assign(t, v, env)
@@ -1033,15 +1056,21 @@ class Exec:
         return self.eval(node.orelse, env)
 
     def ex_JoinedStr(self, node, env):
+        vals = []
         for part in node.values:
             if isinstance(part, ast.FormattedValue):
                 v = self.eval(part.value, env)
                 if isinstance(v, z3.ExprRef):
                     self.formatted.append(L.simp(v))
                 self.engine.model.format_value(self, v)
+                vals.append(self.to_val(v))
             elif isinstance(part, ast.Constant) and isinstance(part.value, str):
                 self.fstring_literals.append(part.value)
-        return self.fresh_str('fstr')
+        # an opaque string term fmt_<position>(embedded values): same values, same text
+        f = L.UF('fmt_%d_%d_%d' % (node.lineno, node.col_offset, len(vals)), *([Val] * len(vals) + [I]))
+        sid = f(*vals) if vals else z3.Int('fmtconst_%d_%d' % (node.lineno, node.col_offset))
+        self.assume(L.slen(sid) >= 0)
+        return L.StrV(sid)
 
     def ex_Lambda(self, node, env):
         fi = None
